@@ -60,6 +60,7 @@ def check(tier, replay):
               ("every sequence of <= 2 raster writes through DFR8 (plain/RLE, palette) / DF24 (3 interlaces) / GR (1 and 3 components, 3 interlaces, RLE/deflate, palette) with listings through all three", "Gen_Interop.tla", "Gen_Interop_pairs_ras.cfg", "cover", {"sample": 3000}),
               ("every sequence of <= 3 dataset writes within one writer family", "Gen_Interop.tla", "Gen_Interop_clear_sds.cfg", "cover", {"sample": 3000}),
               ("every sequence of <= 2 dataset writes through DFSD / SD with dimension scales on every subset of the dimensions and with an unlimited first dimension (SD)", "Gen_Interop.tla", "Gen_Interop_scales_sds.cfg", "cover", {"sample": 2500}),
+              ("datasets with an unlimited dimension gaining 1 or 3 records in later sessions that do nothing else (SD), next to a second dataset, listed through SD and DFSD after every step", "Gen_Interop.tla", "Gen_Interop_grow_sds.cfg", "cover", {"sample": 2500}),
               ("every sequence of <= 3 raster writes clear of the combinations with known findings", "Gen_Interop.tla", "Gen_Interop_clear_ras.cfg", "cover", {"sample": 3000}),
               ("simulate depth 10 (clear combinations; rasters up to 130 pixels wide)", "Gen_Interop.tla", "Gen_Interop_sim.cfg", "sim", {"num_quick": 500, "num": 10000, "depth": 10}),
               ("simulate depth 10 (anything goes)", "Gen_Interop.tla", "Gen_Interop_simmix.cfg", "sim", {"num_quick": 300, "num": 5000, "depth": 10})],
